@@ -150,6 +150,10 @@ func init() {
 		"internal/stringslite.Clone": func(e *Exec, _ *frame, _ token.Pos, _ *ssa.Function, a []Value) Value { return a[0] },
 		"strings.Clone":              func(e *Exec, _ *frame, _ token.Pos, _ *ssa.Function, a []Value) Value { return a[0] },
 		"encoding/json.Marshal": extJSONMarshal,
+		"time.runtimeNano": func(e *Exec, _ *frame, _ token.Pos, _ *ssa.Function, a []Value) Value { return e.ts.Const(64, 1000) },
+		"time.now": func(e *Exec, _ *frame, _ token.Pos, _ *ssa.Function, a []Value) Value {
+			return TupleV{e.ts.Const(64, 1700000000), e.ts.Const(32, 0), e.ts.Const(64, 2000)}
+		},
 		"runtime.KeepAlive": extNop,
 		"runtime.GC":        extNop,
 		"os.Getenv":         func(e *Exec, _ *frame, _ token.Pos, _ *ssa.Function, _ []Value) Value { return StrV{} },
